@@ -69,6 +69,11 @@ def step_cases(rnd, n=60):
         cases.append({"case": "nuts_step", "target": t, "position": [round(rnd.uniform(-1, 1), 3), round(rnd.uniform(-1, 1), 3)],
                       "seed": rnd.randrange(1, 10 ** 6), "delta": rnd.choice([0.6, 0.8, 0.95]), "adapt": ad, "m": m,
                       "n_discard": nd, "steps": 4})
+    # frozen step size at extreme scales: after warm-up epsilon must be exactly the averaged iterate, however small or large
+    # (one transition only: with a tiny step size the next transition would not end, the crate has no depth limit)
+    for k, (eb, T_) in enumerate(((1e-18, 0), (3e-17, 1), (1e-9, 0), (2.5e3, 1))):
+        cases.append({"case": "nuts_step", "target": TARGETS[T_], "position": [0.3, -0.2], "seed": 77 + k, "delta": 0.8,
+                      "adapt": [0.5, eb, 0.1, 1.6], "m": 5, "n_discard": 2, "steps": 1})
     return cases
 
 
@@ -142,7 +147,8 @@ def replay_nuts(kind, seed=1):
                         want = adapt_expected([fl(x) for x in st["before"]], st["m_after"], st["n_discard"], case["delta"],
                                               fl(st["reference_alpha"]), st["reference_n_alpha"])
                         got = [fl(x) for x in st["after"]]
-                        if st["m_after"] != st["m_before"] + 1 or not all(approx_eq(g, w, 1e-7, 1e-9) for g, w in zip(got, want)):
+                        if st["m_after"] != st["m_before"] + 1 or not all(
+                                approx_eq(g, w, 1e-7, 0.0 if i < 2 else 1e-9) for i, (g, w) in enumerate(zip(got, want))):  # step sizes: relative only
                             hits.append((prof, case, dict(st, expected_after=want), "adaptation state differs from dual averaging"))
                             break
     if hits:
